@@ -48,6 +48,12 @@ func genC06Case(t *rapid.T) SSOCase {
 			applyModelDefect(&c, d, host)
 		}
 	case "valid":
+		if rapid.Bool().Draw(t, "history") {
+			// an otherwise valid request from a provider that used the IdP before and has since been deregistered (or re-registered)
+			c.Hist = genHistory(t, spec, c.SP, func(e *world.SPSpec) {
+				e.ACS = []world.ACSSpec{acs(world.BindPost, "https://earlier.example/acs/post", "0", A)}
+			}, true)
+		}
 		if len(c.Prelude) > 0 && c.Spec.IdP.Endpoint("sso").URL == "" {
 			d := Defect{Name: "dest-of-other-tenant", Param: c.Prelude[0]}
 			c.Defects = append(c.Defects, d)
